@@ -152,7 +152,29 @@ def base_ref(se, env, r):
     return r
 
 
+def abs_slice(se, env, pc, buf, i):
+    """Range indexing of an abstract byte buffer {'len', 'off', 'kind'} (contents are not represented)."""
+    a, b = i[0], i[1]
+    ok = And(ULE(a, b), ULE(b, buf['len']))
+    if se.check(Not(ok)): se.panics.append((list(pc) + [Not(ok)], 'range end index out of range for slice (summary)', 'summary'))
+    out = dict(buf, len=b - a)
+    if buf.get('off') is not None: out['off'] = buf['off'] + a
+    return [(ok, out, env.get('$state'))]
+
+
+def split_at(se, env, pc, r, n):
+    buf = se.deref(env, r) if isinstance(r, Ref) else r
+    if not (isinstance(buf, dict) and 'len' in buf): raise Inconclusive('split_at on %r' % (buf,))
+    ok = ULE(n, buf['len'])
+    if se.check(Not(ok)): se.panics.append((list(pc) + [Not(ok)], 'split_at: mid > len (summary)', 'summary'))
+    left = dict(buf, len=n); right = dict(buf, len=buf['len'] - n)
+    if buf.get('off') is not None: right['off'] = buf['off'] + n
+    return [(ok, (left, right), env.get('$state'))]
+
+
 def vec_index(se, env, pc, r, i):
+    v0 = se.deref(env, r) if isinstance(r, Ref) else r
+    if isinstance(v0, dict) and 'len' in v0 and isinstance(i, dict) and i.get('__ty') == 'Range': return abs_slice(se, env, pc, v0, i)
     r = base_ref(se, env, r); l = get_at(env[r.local], r.path)
     if isinstance(i, dict) and i.get('__ty') == 'Range':
         a, b = as_int(i[0]), as_int(i[1]); return one(env, l[a:b])
@@ -334,6 +356,8 @@ def std_summaries():
     P[r'Result::map_err'] = res_map_err
     P[r'Option::cloned'] = lambda se, env, pc, o: one(env, Enum('Some', (se.deref(env, o.fields[0]),)) if o.tag == 'Some' else o)
     # Vec / slice
+    P[r'core::slice::<impl \[u8\]>::split_at'] = split_at
+    P[r'std::vec::from_elem'] = lambda se, env, pc, z, n: one(env, {'len': n, 'kind': 'zeros', 'off': bv(0)})
     P[r'Vec::new'] = lambda se, env, pc: one(env, [])
     P[r'Vec::with_capacity'] = lambda se, env, pc, n: one(env, [])
     P[r'Vec::len'] = vec_len
